@@ -60,7 +60,7 @@ Definition enc_fheader_of (wlog : N) (cs ck nodid ml : bool) (pledged dictID : N
   enc_fheader {| fp_windowLog := wlog; fp_contentSize := cs; fp_checksum := ck; fp_noDictID := nodid; fp_magicless := ml |} pledged dictID.
 
 (* ---------- compressed blocks: re-encode the sequences bitstream (and raw / RLE literals sections) ---------- *)
-From ZV.Codec Require Import EncodeSeq EncodeHuf EncodeFse.
+From ZV.Codec Require Import EncodeSeq EncodeHuf EncodeFse EncodeHufDesc.
 
 (* the values of the sequences of a block, read like seq_loop reads them but without executing them *)
 Fixpoint seq_values (n : nat) (tll tof tml : fse_table) (stll stof stml : N) (s : list bool) (acc : list eseq) : res (list eseq) :=
@@ -99,6 +99,24 @@ Definition ncount_diff (mode maxSV maxLog : N) (src : bytes) : option N :=
     end
   else None.
 
+(* a Huffman tree description re-written by the model from the weights (and, for the FSE form, the normalised counts) R read *)
+Definition treedesc_reencode (treedesc : bytes) : option bytes :=
+  match treedesc with
+  | [] => None
+  | hb :: rest =>
+    if 128 <=? hb then
+      match direct_weights (N.to_nat (hb - 127)) rest with
+      | Some ws => Some (enc_weights_direct ws)
+      | None => None
+      end
+    else
+      let body := takeN hb rest in
+      match read_ncount 255 6 body, fse_weights body with
+      | Ok (log, counts, _), Ok ws => enc_weights_fse log counts ws
+      | _, _ => None
+      end
+  end.
+
 (* Ok None: the model encoder reproduces the block's literals header (raw / RLE modes), Number_of_Sequences field and
    sequences bitstream byte for byte; Ok (Some i): first differing byte (offset inside the block payload) *)
 Definition reencode_cblock (blockMax : N) (e : entropy) (payload : bytes) : res (option N) :=
@@ -114,8 +132,9 @@ Definition reencode_cblock (blockMax : N) (e : entropy) (payload : bytes) : res 
                     let lh := if sf <? 2 then 3 else if sf =? 2 then 4 else 5 in
                     let body := skipN litsec lh in
                     let treedesc := if ltype =? 2 then match read_huf_table LitHufLog body with Ok (_, used) => takeN used body | Err _ _ => [] end else [] in
+                    let treedesc' := if ltype =? 2 then match treedesc_reencode treedesc with Some d => d | None => [] end else [] in
                     match huf' with
-                    | Some t => match enc_lits_huf ltype sf treedesc (h_tree t) lits with
+                    | Some t => match enc_lits_huf ltype sf treedesc' (h_tree t) lits with
                                 | Some sec => first_diff sec litsec 0
                                 | None => Some 0
                                 end
